@@ -50,6 +50,12 @@ type confCase struct {
 	client  func(y *confSync, cl *http.Client, url string, o *confObs)
 }
 
+// confSimConn: applied to every simulated connection of the named case (what a real client does by
+// simply not reading has to be said explicitly to the simulated one)
+var confSimConn = map[string]func(c *sim.Conn){
+	"write-deadline-unblocks-a-write-to-a-peer-that-does-not-read": func(c *sim.Conn) { c.StopReading(8 << 10) },
+}
+
 func confErrClass(err error) string {
 	if err == nil {
 		return ""
@@ -290,6 +296,30 @@ var confCases = []confCase{
 		resp.Body.Close()
 		o.Echo = fmt.Sprintf("%x", len(b)) + ":" + string(b[:60])
 	}},
+	{"write-deadline-unblocks-a-write-to-a-peer-that-does-not-read", func(y *confSync, w http.ResponseWriter, r *http.Request) {
+		w.Write([]byte("a"))
+		w.(http.Flusher).Flush()
+		go func() {
+			time.Sleep(300 * time.Millisecond)
+			http.NewResponseController(w).SetWriteDeadline(time.Now())
+		}()
+		chunk := []byte(strings.Repeat("x", 64<<10))
+		for i := 0; i < 4000 && !y.srv.SrvWriteErr; i++ { // up to 256 MB: more than any socket buffer
+			if _, err := w.Write(chunk); err != nil {
+				y.srv.SrvWriteErr = true
+			}
+		}
+	}, func(y *confSync, cl *http.Client, url string, o *confObs) {
+		resp := confGet(context.Background(), cl, url, o)
+		if resp == nil {
+			return
+		}
+		one := make([]byte, 1)
+		n, _ := io.ReadFull(resp.Body, one)
+		o.Body = string(one[:n])
+		confWait(y.srvDone, 20*time.Second) // does not read on
+		resp.Body.Close()
+	}},
 	{"deadline-passes-before-headers", func(y *confSync, w http.ResponseWriter, r *http.Request) {
 		select {
 		case <-r.Context().Done():
@@ -351,6 +381,9 @@ func TestStubConformance(t *testing.T) {
 				sim.Execute(t, sim.NewTape(77, run), sim.Options{MaxSteps: 200000, MaxSimTime: time.Hour}, func(s *sim.Sim) {
 					y := &confSync{gate: make(chan struct{}), srvDone: make(chan struct{})}
 					s.Net.Serve("srv", confHandler(cs, y))
+					if f := confSimConn[cs.name]; f != nil {
+						s.Net.OnConn = f
+					}
 					if run%2 == 1 {
 						s.Net.Faults = sim.NetFaults{ShortRead: 30, Delay: 20}
 					}
